@@ -10,7 +10,7 @@ EXTENDS Norm
 
 CONSTANT GLevel       \* 1: names of length 1..2, 2: 1..3
 
-NameAlpha == {"a", "z", "0", "_", "."}
+NameAlpha == {"a", "z", "h", "0", "_", "."}      \* "h": stems ending like the suffix (graph.h)
 Up(c) == IF c = "a" THEN "A" ELSE IF c = "z" THEN "Z" ELSE IF c = "." THEN "_" ELSE IF c = "h" THEN "H" ELSE IF c = "c" THEN "C" ELSE c
 Low(c) == IF c = "A" THEN "a" ELSE IF c = "Z" THEN "z" ELSE IF c = "H" THEN "h" ELSE c
 GuardOf(name) == [i \in DOMAIN name |-> Up(name[i])]
